@@ -76,16 +76,22 @@ for line in open(os.path.join(HERE, 'properties.jsonl')):
 
 # parts added after the first registration (one line each; the evidence file lists the bounds)
 EXTRA = {
- 'C01': 'continued runs (Steps, an operation that makes the solver decorate its objective again, Steps); one-component vector costs, reducers sumsq/rms.',
- 'C02': 'the box replaced mid-run by one written in another numeric type (int endpoints -> non-integer endpoints and three other moves), all modes and solvers.',
- 'C04': 'settings handed over as Step/Solve keywords; terminations that collapse and continue inside one Solve (callback, counters and monitors after a collapse).',
- 'C05': 'exit requested from inside the cost during iteration j in 1..6 x periodic restart file of frequency {none,1,2,3} x {Step loop, Step loop with looks, Solve}.',
+ 'C01': 'continued runs (Steps, an operation that makes the solver decorate its objective again, Steps); one-component vector costs, reducers sumsq/rms and two-argument reducers; a penalty installed mid-run (Powell).',
+ 'C02': 'the box replaced mid-run by one written in another numeric type (int endpoints -> non-integer endpoints and three other moves), all modes and solvers; initial points requested with None upper limits.',
+ 'C03': 'ranges set twice with different boxes in one mode (before the first Step and mid-run) with constraints that fit the final box only.',
+ 'C11': 'shared terminations, look-back windows longer than the history, a collapse condition and an ordinary stop of one compound termination becoming true at one generation (every (g,h) in a small range, four tree shapes).',
+ 'C13': 'histories (build A, build B, use A), tuple-of-strings inputs, named constants whose names math / numpy export too.',
+ 'C14': 'histories, clear() after iterations, a named constant called pi (the user value must win over the prelude).',
+ 'C15': 'worlds (nests iterated out of step, combinators as objects), store with the explicit index 0.',
+ 'C17': 'the penalty combinators x ptype keyword x member kind; constraint combinators with members that raise the handled errors.',
+ 'C04': 'settings handed over as Step/Solve keywords; terminations that collapse and continue inside one Solve (callback, counters and monitors after a collapse); the callback as a falsy callable object.',
+ 'C05': 'exit requested from inside the cost during iteration j in 1..6 x periodic restart file of frequency {none,1,2,3} x {Step loop, Step loop with looks, Solve}; a real SIGINT answered by a script on the same / copied / restarted solver.',
  'C06': 'sticky Solve settings, DE2 under a copying map, monitors with a cost multiplier, sentinels named by the module attribute they are.',
  'C07': 'Sparsity and Lattice(nbins) ensembles in four drive modes; instance isolation (B first then A vs A alone, pristine process per scenario, 64 ordered pairs per solver).',
  'C08': 'adaptive Nelder-Mead coefficients; NaN costs; boundary (CR,F) as keywords; the eligible-member pool at NP 258/300 [1030]; user-supplied direction sets by type.',
  'C09': 'DE-type members, tight/clip range modes, each member against a stand-alone solver, pre-loaded evaluation/step monitors, a second Solve.',
  'C12': 'repeated calls (library-kept state), decimal literals, rational templates written with blanks around the division sign.',
- 'C16': 'cyclic and converging masks, setter histories, out-of-range / negative / mixed-sign indices.',
+ 'C16': 'cyclic and converging masks, setter histories, out-of-range / negative / mixed-sign / empty index selections.',
  'C18': 'large-offset vectors with a stated noise allowance, tol families for mean/moment/standard_moment/impose_moment, underflow/overflow scale families for Lnorm, the metrics and normalize.',
  'C19': 'update on copy-constructed measures and shared factors; one-factor measures with a large common offset.',
  'C20': 'step slices, munge readers on live monitors, list / array / boolean-mask indices.',
